@@ -132,6 +132,7 @@ def run_config(a, res, cfg, histories):
     lab = Lab(a, res, handler=handler, conf=COMMON + c["conf"], cache_dirs=c["cache_dirs"], clock=True)
     sq = lab.sq
     clock = [0]
+    idle0 = [None]      # idle descriptor count after the warm-up
 
     def on_accept(rec):
         with alock:
@@ -310,6 +311,12 @@ def run_config(a, res, cfg, histories):
         hist.h = h
         T = [time.time()]
         base_fd, st = stable_fds()
+        for _ in range(2):
+            if st and base_fd == idle0[0]:
+                break
+            # leftovers of the previous history's release (or of the warm-up) still hold timeouts: expire them
+            jump()
+            base_fd, st = stable_fds()
         base_mgr, _ = mgr_fd_count()
         if not st:
             res.inconclusive.append(f"baseline not stable before history {h['n']}")
@@ -402,7 +409,11 @@ def run_config(a, res, cfg, histories):
         import collections
         st0 = collections.Counter()
         worker(warm["txs"], hw, st0, width=4)
+        stable_fds(max_wait=10)
         jump()
+        stable_fds(max_wait=10)
+        jump()
+        idle0[0], _ = stable_fds()
         for h in histories:
             if not run_history(h):
                 break
